@@ -28,6 +28,14 @@
 //! session; split points wait on sozu's read counter instead of sleeping; receivers re-arm
 //! TCP_QUICKACK and no socket buffer below 16 KB is used on a receive side (silly-window stalls).
 //!
+//! Idle-timer class (`CellKind::Paced`): eight cells (plain, send, relay, ws x download, upload) with a
+//! 2 s front timeout and a 30 s back timeout run one session each in which one peer paces 3 bytes
+//! every front_timeout/4 for 3-3.5 x front_timeout while the other sends nothing (in relay mode:
+//! nothing but its PROXY header). Same oracle: every byte, then the end-of-stream. A cut is
+//! `.../idle_timer_fired_despite_traffic` only when the scripted sender's own write timestamps show
+//! that it never paused front_timeout/2 or more (else inconclusive: pacing not achieved, e.g. under
+//! CPU starvation). These cells mostly sleep and are scheduled first, beside everything else.
+//!
 //! Attribution by observation, not by script shape:
 //!  * sozu's own accounting (one QueryMetrics on the lab worker after every session): a session
 //!    during which `tcp.infinite_loop.error` / `http.infinite_loop.error` moved was ended by sozu's
@@ -43,7 +51,7 @@
 //!    holds the backend back (retry policy, 1..32 s): those refusals are inconclusive here.
 //!
 //! Debug aids: `VH_C18_TRACE=1` prints one line per session; `--opt only=<modes>`,
-//! `--opt kind=random|sweep|malformed`, `--opt max_cells=N`, `--opt scale=N`, `--opt max_size=N`,
+//! `--opt kind=random|sweep|malformed|paced`, `--opt max_cells=N`, `--opt scale=N`, `--opt max_size=N`,
 //! `--opt only_session=K` (with --replay: run only session K of the replayed cells).
 
 mod engine;
@@ -192,6 +200,8 @@ struct SessionSpec {
     /// WebSocket: cut inside the upgrade request; first backend bytes sharing the segment of the 101
     request_cut: Option<usize>,
     ws_joined: usize,
+    /// paced session: the listener's front timeout (ms) the stream must outlast
+    paced_front_timeout_ms: Option<u64>,
 }
 
 impl SessionSpec {
@@ -205,6 +215,7 @@ impl SessionSpec {
                 "verdict": format!("{:?}", h.verdict), "truncated_then_fin": h.truncated})),
             "header_split_at": self.split, "payload_bytes_joined_to_header": self.joined,
             "upgrade_request_cut_at": self.request_cut, "backend_bytes_joined_to_101": self.ws_joined,
+            "paced_against_front_timeout_ms": self.paced_front_timeout_ms,
         })
     }
 }
@@ -215,6 +226,8 @@ enum CellKind {
     /// header variant `variant`, split positions from..to, with and without joined payload
     Sweep { variant: usize, from: usize, to: usize },
     Malformed,
+    /// one slowly paced one-directional stream that outlasts the listener's front timeout
+    Paced { download: bool },
 }
 
 #[derive(Clone, Debug)]
@@ -229,6 +242,7 @@ struct CellSpec {
     n_sessions: u64,
     max_size: u64,
     front_timeout: u32,
+    back_timeout: u32,
     /// first cell of a mode suspected to take the worker down; the others wait for its verdict
     canary: bool,
 }
@@ -236,7 +250,7 @@ struct CellSpec {
 impl CellSpec {
     fn json(&self) -> Value {
         json!({"cell": self.idx, "mode": self.mode.name(), "kind": format!("{:?}", self.kind), "buffer_size": self.buffer_size,
-            "knobs": self.knobs, "backend_rcvbuf": self.backend_rcvbuf, "ipv6": self.ipv6, "front_timeout": self.front_timeout})
+            "knobs": self.knobs, "backend_rcvbuf": self.backend_rcvbuf, "ipv6": self.ipv6, "front_timeout": self.front_timeout, "back_timeout": self.back_timeout})
     }
 }
 
@@ -487,6 +501,30 @@ fn gen_session(cell: &CellSpec, seed: u64, k: u64, sweep: &[HdrSpec], malformed:
                 backend_holds: true,
                 request_cut: None,
                 ws_joined: 0,
+                paced_front_timeout_ms: None,
+            }
+        }
+        CellKind::Paced { download } => {
+            // 3 bytes every front_timeout/4, for 3 to 3.5 x front_timeout; the other peer sends nothing
+            // (in relay mode: nothing but its PROXY header, at once)
+            let ft_ms = cell.front_timeout as u64 * 1000;
+            let paced = IoProgram { write_seg: 3, write_pause_us: ft_ms * 1000 / 4, ..IoProgram::fast() };
+            let len = 3 * (13 + rng.below(3));
+            SessionSpec {
+                k,
+                c2b: if *download { 0 } else { len },
+                b2c: if *download { len } else { 0 },
+                script: Script::HalfClose { first: if *download { Who::Backend } else { Who::Client }, late: false },
+                cprog: if *download { IoProgram::fast() } else { paced.clone() },
+                bprog: if *download { paced } else { IoProgram::fast() },
+                src_ip,
+                hdr: if cell.mode == Mode::Relay { Some(sweep[0].clone()) } else { None },
+                split: None,
+                joined: 0,
+                backend_holds: false,
+                request_cut: None,
+                ws_joined: 0,
+                paced_front_timeout_ms: Some(ft_ms),
             }
         }
         CellKind::Malformed => {
@@ -507,6 +545,7 @@ fn gen_session(cell: &CellSpec, seed: u64, k: u64, sweep: &[HdrSpec], malformed:
                 backend_holds: false,
                 request_cut: None,
                 ws_joined: 0,
+                paced_front_timeout_ms: None,
             }
         }
         CellKind::Random => {
@@ -559,7 +598,7 @@ fn gen_session(cell: &CellSpec, seed: u64, k: u64, sweep: &[HdrSpec], malformed:
             } else {
                 (None, 0)
             };
-            SessionSpec { k, c2b, b2c, script, cprog, bprog, src_ip, hdr, split, joined, backend_holds: false, request_cut, ws_joined }
+            SessionSpec { k, c2b, b2c, script, cprog, bprog, src_ip, hdr, split, joined, backend_holds: false, request_cut, ws_joined, paced_front_timeout_ms: None }
         }
     }
 }
@@ -1252,14 +1291,35 @@ fn judge(env: &Env, spec: &SessionSpec, ran: &Ran, rep: &mut Report) -> Verdict 
         // of one ready() call without either socket blocking): observed on sozu's own
         // `tcp.infinite_loop.error` / `http.infinite_loop.error` counters, which moved during this
         // session. Whatever is missing in either direction was cut by that.
-        let _ = sender;
-        let variant = if ran.cut_by_loop_guard { "/session_cut_mid_transfer" } else if busy { "/opposite_direction_busy" } else { "" };
+        // A paced stream that outlasts the front timeout: the cut is a violation only if the harness
+        // sender itself really kept writing well within the timeout (its own write timestamps);
+        // if it was starved for front_timeout/2 or more, sozu's idle timer may have fired rightly.
+        let mut paced_variant = false;
+        if let Some(ft_ms) = spec.paced_front_timeout_ms {
+            if sender.writes >= 2 && sender.max_write_gap_ms < ft_ms / 2 {
+                paced_variant = true;
+            } else {
+                return Some(Verdict::Inconclusive(format!(
+                    "{dir}: paced stream cut, but the scripted sender paused {} ms (front timeout {ft_ms} ms): pacing not achieved",
+                    sender.max_write_gap_ms
+                )));
+            }
+        }
+        let variant = if ran.cut_by_loop_guard {
+            "/session_cut_mid_transfer"
+        } else if paced_variant {
+            "/idle_timer_fired_despite_traffic"
+        } else if busy {
+            "/opposite_direction_busy"
+        } else {
+            ""
+        };
         match receiver {
             Some(r) if ended(r) => {
                 let _ = rep;
                 Some(Verdict::Violation(
                     format!("{p}/eos_before_all_bytes/{dir}{variant}"),
-                    format!("{dir}: the receiver observed end-of-stream ({:?}) after {got} of {len} bytes{}{}", r.end, if sender.send_done { " (all of them written before the sender ended its stream)" } else { " (the sender was cut while writing)" }, if busy { format!("; the opposite direction was still carrying data ({opposite_received} of the {opposite_written} bytes written there had come out)") } else { String::new() }),
+                    format!("{dir}: the receiver observed end-of-stream ({:?}) after {got} of {len} bytes{}{}", r.end, if sender.send_done { " (all of them written before the sender ended its stream)" } else { " (the sender was cut while writing)" }, if paced_variant { format!("; the sender wrote {} times over {} ms, never pausing more than {} ms (front timeout {} ms), the end-of-stream came {:?} ms after the last byte", sender.writes, sender.write_span_ms, sender.max_write_gap_ms, spec.paced_front_timeout_ms.unwrap_or(0), r.eos_after_last_byte_ms) } else if busy { format!("; the opposite direction was still carrying data ({opposite_received} of the {opposite_written} bytes written there had come out)") } else { String::new() }),
                 ))
             }
             None if ended(c) && dir == "client_to_backend" => match &ran.no_backend {
@@ -1384,6 +1444,7 @@ fn setup_worker(cell: &CellSpec) -> Result<(Worker, BackendServer, AcceptQueue, 
     let opts = WorkerOpts { buffer_size: cell.buffer_size, knobs: cell.knobs.clone(), ..WorkerOpts::default() };
     let mut w = Worker::start(opts);
     let ft = cell.front_timeout;
+    let bt = cell.back_timeout;
     let proxy_protocol = match cell.mode {
         Mode::Send => Some(ProxyProtocolConfig::SendHeader as i32),
         Mode::Expect => Some(ProxyProtocolConfig::ExpectHeader as i32),
@@ -1393,14 +1454,14 @@ fn setup_worker(cell: &CellSpec) -> Result<(Worker, BackendServer, AcceptQueue, 
     let ok = if cell.mode.is_ws() {
         let expect = cell.mode == Mode::ExpectWs;
         w.add_http_listener(front, |b| {
-            b.with_expect_proxy(expect).with_front_timeout(Some(ft)).with_back_timeout(Some(ft)).with_request_timeout(Some(ft));
+            b.with_expect_proxy(expect).with_front_timeout(Some(ft)).with_back_timeout(Some(bt)).with_request_timeout(Some(ft));
         }) && w.add_cluster(Cluster { cluster_id: "c18".into(), ..Default::default() })
             && w.add_http_frontend(Worker::http_frontend("c18", front, WS_HOST, "/"))
             && w.add_backend("c18", "b0", back)
     } else {
         let expect = matches!(cell.mode, Mode::Expect | Mode::Relay);
         w.add_tcp_listener(front, |b| {
-            b.with_expect_proxy(expect).with_front_timeout(Some(ft)).with_back_timeout(Some(ft));
+            b.with_expect_proxy(expect).with_front_timeout(Some(ft)).with_back_timeout(Some(bt));
         }) && w.add_cluster(Cluster { cluster_id: "c18".into(), proxy_protocol, ..Default::default() })
             && w.add_tcp_frontend("c18", front)
             && w.add_backend("c18", "b0", back)
@@ -1640,6 +1701,21 @@ fn run_cell(ctx: &Ctx, cell: &CellSpec, rep: &mut Report, shared: &CellShared, i
             rep.sample(json!({"cell": cell.json(), "session": spec.json(), "client": ran.client.as_ref().map(|r| r.json()), "backend": ran.backend.as_ref().map(|r| r.json())}));
         }
 
+        if let (CellKind::Paced { download }, Some(ft_ms)) = (&cell.kind, spec.paced_front_timeout_ms) {
+            let dir = if *download { "download" } else { "upload" };
+            let sender = if *download { ran.backend.as_ref() } else { ran.client.as_ref() };
+            let paced_ok = sender.is_some_and(|s| s.writes >= 2 && s.max_write_gap_ms < ft_ms / 2);
+            let outlasted = sender.is_some_and(|s| s.write_span_ms * 2 > ft_ms * 5);
+            match &verdict {
+                Verdict::Held | Verdict::Violation(..) if paced_ok && (outlasted || matches!(verdict, Verdict::Violation(..))) => {
+                    rep.obs(&format!("paced_{dir}_streams_outlasting_front_timeout_judged"), 1);
+                    rep.obs(&format!("paced_{dir}_judged_{mode}"), 1);
+                    rep.obs_max("paced_stream_span_ms", sender.map(|s| s.write_span_ms).unwrap_or(0));
+                    rep.obs_max("paced_stream_longest_pause_ms", sender.map(|s| s.max_write_gap_ms).unwrap_or(0));
+                }
+                _ => rep.obs("paced_sessions_pacing_not_achieved", 1),
+            }
+        }
         match verdict {
             Verdict::Held => {
                 rep.obs(&format!("sessions_judged_{mode}"), 1);
@@ -1777,6 +1853,7 @@ fn build_cells(ctx: &Ctx) -> Vec<CellSpec> {
         n_sessions: n,
         max_size,
         front_timeout: 60,
+        back_timeout: 60,
         canary: false,
     };
     let variants = sweep_variants();
@@ -1796,6 +1873,7 @@ fn build_cells(ctx: &Ctx) -> Vec<CellSpec> {
     let malformed_cell = |mode: Mode| {
         let mut c = base(mode, CellKind::Malformed, n_mal);
         c.front_timeout = 2;
+        c.back_timeout = 2;
         c
     };
     // 1. the relay canary (runs beside everything else), then the exhaustive split sweep through
@@ -1838,6 +1916,16 @@ fn build_cells(ctx: &Ctx) -> Vec<CellSpec> {
     cells.push(malformed_cell(Mode::Expect));
     sweep_cells(Mode::Relay, RELAY_SWEEP, &mut cells);
     cells.push(malformed_cell(Mode::Relay));
+    // 4. idle-timer cells: a short front timeout, a long back timeout, one paced one-directional
+    //    stream each (they cost ~6 s of sleeping: scheduled first, see `run`)
+    for mode in [Mode::Plain, Mode::Send, Mode::Relay, Mode::Ws] {
+        for download in [true, false] {
+            let mut c = base(mode, CellKind::Paced { download }, 1);
+            c.front_timeout = 2;
+            c.back_timeout = 30;
+            cells.push(c);
+        }
+    }
     for (i, c) in cells.iter_mut().enumerate() {
         c.idx = i as u64;
     }
@@ -1850,6 +1938,7 @@ fn build_cells(ctx: &Ctx) -> Vec<CellSpec> {
             CellKind::Random => kind == "random",
             CellKind::Sweep { .. } => kind == "sweep",
             CellKind::Malformed => kind == "malformed",
+            CellKind::Paced { .. } => kind == "paced",
         });
     }
     if let Some(n) = ctx.opt("max_cells").and_then(|v| v.parse::<usize>().ok()) {
@@ -1904,6 +1993,8 @@ pub fn run(ctx: &Ctx) -> Report {
                 "sessions_judged_send",
                 "sessions_judged_ws",
                 "sessions_judged_expect_http",
+                "paced_download_streams_outlasting_front_timeout_judged",
+                "paced_upload_streams_outlasting_front_timeout_judged",
                 "sessions_mode_expect",
                 "sessions_mode_relay",
                 "send_header_exact",
@@ -1924,7 +2015,9 @@ pub fn run(ctx: &Ctx) -> Report {
     run_ctx.threads = ctx.opt_u64("cell_threads", (ctx.threads as u64 * 3 / 2).max(4)) as usize;
     let ctxr = &run_ctx;
     // the relay canary runs in its own thread beside the pool; the other relay cells wait for it
-    let (canaries, pool): (Vec<CellSpec>, Vec<CellSpec>) = cells.into_iter().partition(|c| c.canary);
+    let (canaries, mut pool): (Vec<CellSpec>, Vec<CellSpec>) = cells.into_iter().partition(|c| c.canary);
+    // the paced cells mostly sleep: start them first so that they overlap with everything else
+    pool.sort_by_key(|c| !matches!(c.kind, CellKind::Paced { .. }));
     if canaries.is_empty() {
         shared.relay_canary_done.store(true, Ordering::SeqCst);
     }
